@@ -344,8 +344,8 @@ def explore_seq(I, model, seq):
     return out
 
 
-def r_state(ctx: Ctx, model):
-    ctx.rule("R-state: for every ordered pair of Adsorbate getters (g1 at T1, g2 at T2, g1 at T1 again): the third "
+def r_state(ctx: Ctx, model, prop="C04", rule="R-state"):
+    ctx.rule(f"{rule}: for every ordered pair of Adsorbate getters (g1 at T1, g2 at T2, g1 at T1 again): the third "
              "result equals the first and equals the result on a fresh object; every CoolProp read is positioned by "
              "an update of the same call")
     I = make_interp(model)
@@ -364,7 +364,7 @@ def r_state(ctx: Ctx, model):
         # positioned reads only
         kind, v = r[0][0]
         ok = kind == "ok" and isinstance(v, Num) and not any("@None" in a or "stale" in a for a in v.atoms())
-        ctx.ob(ok, Finding("C04.R-state", ci.methods[g].where, f"Adsorbate.{g}|unpositioned-read",
+        ctx.ob(ok, Finding(f"{prop}.{rule}", ci.methods[g].where, f"Adsorbate.{g}|unpositioned-read",
                            f"Adsorbate.{g}: on a fresh object the result is {I.describe(v) if kind == 'ok' else v}; a CoolProp "
                            "property is read without positioning the shared state in the same call"),
                nontrivial_key=("state", g, press, "fresh"))
@@ -378,12 +378,12 @@ def r_state(ctx: Ctx, model):
             def same(a, b):
                 return a[0] == b[0] and (a[1] == b[1] if a[0] == "ok" else a[1] == b[1])
             ok = same(first, third) and same(first, fresh[(g1, p1)])
-            ctx.ob(ok, Finding("C04.R-state", ci.methods[g1].where, f"Adsorbate.{g1}|after:{g2}",
+            ctx.ob(ok, Finding(f"{prop}.{rule}", ci.methods[g1].where, f"Adsorbate.{g1}|after:{g2}",
                                f"Adsorbate.{g1}({'press=' if p1 else ''}T1) after {g2}({'press=' if p2 else ''}T2) gives "
                                f"{_d(I, third)} but {_d(I, fresh[(g1, p1)])} on a fresh object: the shared thermodynamic "
                                "state leaks between calls"),
                    nontrivial_key=("state", g1, p1, g2, p2),
-                   sample={"rule": "R-state", "sequence": [g1, g2, g1], "third": _d(I, third)} if n % 40 == 1 else None)
+                   sample={"rule": rule, "sequence": [g1, g2, g1], "third": _d(I, third)} if n % 40 == 1 else None)
     ctx.floor("getter sequences interpreted", n, 150)
 
 
